@@ -17,7 +17,7 @@
 
 static const std::vector<std::string>& arg_alphabet()
 {
-    static const std::vector<std::string> a = { "x", "", "{}", "{", "}", "{}{}" };
+    static const std::vector<std::string> a = { "x", "", "{}", "{", "}", "{}{}", "$&", "$$1" };
     return a;
 }
 
@@ -104,7 +104,21 @@ static std::string run_format(const std::string& f, const std::vector<std::strin
             return s;
         }
         std::ostringstream o;
-        o << "<" << fm << ">";
+        o << "<";
+        try
+        {
+            o << fm;
+        }
+        catch (std::exception& e)
+        {
+            // "raises instead of yielding partial output": nothing of the text may have reached the stream
+            threw = true;
+            what = e.what();
+            if (o.str() != "<")
+                what = "PARTIAL-OUTPUT:" + o.str().substr(1);
+            return "";
+        }
+        o << ">";
         auto s = o.str();
         return s.substr(1, s.size() - 2);
     }
@@ -130,6 +144,8 @@ static void check_format(const std::string& f, const std::vector<std::string>& a
                               (read == 0 ? " read by str()" : read == 1 ? " read by conversion" : " read by operator<<");
             if (a.size() != k)
             {
+                if (threw && what.rfind("PARTIAL-OUTPUT:", 0) == 0)
+                    out.push_back({ "partial-output-before-the-arity-error", ctx + " raised, but " + mc::jstr(what.substr(15)) + " had already been written to the stream" });
                 if (!threw)
                     out.push_back({ a.size() > k ? "too-many-arguments-must-raise" : "too-few-arguments-must-raise",
                                     ctx + " returned " + mc::jstr(got) + " (" + std::to_string(k) + " placeholders)" });
@@ -451,7 +467,7 @@ int main(int argc, char** argv)
     auto rep = sh.run();
     rep.counters["bound_format_len"] = L;
     rep.counters["formats"] = formats.size();
-    rep.notes["rule"] = "every format over {'{','}','a'} of length <= bound x argument count 0..k+1 x tuples over 6 argument texts x 2 ways of "
+    rep.notes["rule"] = "every format over {'{','}','a'} of length <= bound x argument count 0..k+1 x tuples over 8 argument texts x 2 ways of "
                         "supplying x 3 ways of reading; typed values and manipulators (tuples of <= 3 over 15) on 14 formats; exception "
                         "messages alone and after every ordered pair of earlier exceptions; non-trivial = exact-arity tuples for formats with "
                         "placeholders, and exception sequences";
